@@ -273,8 +273,64 @@ def analyse(repo: Repo, forbidden: Iterable[int], sanitizers=("format_timestamp"
             loops.append(c)
     by_id = {id(l.for_node): l for l in loops}
 
+    def scan_cleaner(n: Node, kind: str):
+        """A whole-table scan written as an expression — ``next((.. for k, v in TABLE if <guard on v>), None)`` /
+        ``any(<guard on v> for k, v in TABLE)`` — tested (possibly through a local) and found empty: every listed
+        parameter passed the guard."""
+        if n.kind != "test":
+            return []
+        from .x_objalias import through_local
+
+        e = through_local(fi, n.ast)
+        found_on = "true"
+        while isinstance(e, ast.UnaryOp) and isinstance(e.op, ast.Not):
+            e, found_on = e.operand, ("false" if found_on == "true" else "true")
+        if isinstance(e, ast.Compare) and len(e.ops) == 1 and isinstance(e.comparators[0], ast.Constant) and e.comparators[0].value is None:
+            if isinstance(e.ops[0], ast.Is):
+                found_on = "false" if found_on == "true" else "true"
+            elif not isinstance(e.ops[0], ast.IsNot):
+                return []
+            e = e.left
+        if not (isinstance(e, ast.Call) and isinstance(e.func, ast.Name) and e.func.id in ("next", "any") and e.args):
+            return []
+        gen = e.args[0]
+        if e.func.id == "next" and not (len(e.args) == 2 and isinstance(e.args[1], ast.Constant) and e.args[1].value is None):
+            return []
+        if not isinstance(gen, (ast.GeneratorExp, ast.ListComp)) or len(gen.generators) != 1:
+            return []
+        g = gen.generators[0]
+        if not (isinstance(g.target, ast.Tuple) and len(g.target.elts) == 2 and isinstance(g.target.elts[1], ast.Name)):
+            return []
+        vv = g.target.elts[1].id
+        conds = [c for i in g.ifs for c in q.split_conj(i)] if e.func.id == "next" else q.split_conj(gen.elt)
+        if e.func.id == "any" and g.ifs:
+            conds = conds + [c for i in g.ifs for c in q.split_conj(i)]
+        guard = None
+        for c in conds:
+            rg = regex_guard(repo, fi, c)
+            if rg is not None and rg.var == vv and rg.truthy_means_matched:
+                guard = rg
+                continue
+            txt = q.unparse(c)
+            if q.dotted(c) == vv or (vv in q.names_in(c) and ("is not None" in txt or "isinstance" in txt)):
+                continue  # None / non-text values are skipped: they carry no characters
+            return []
+        if guard is None or not guard.clean_for("false", forbidden):
+            return []
+        li = _list_items(fi, g.iter)
+        if li is None:
+            raise AnalysisError("%s: validation scan over a table that is not understood: %s" % (fi.qualname, q.unparse(g.iter)[:80]))
+        params, covers = li
+        if kind == found_on:
+            return []
+        out = list(params)
+        if covers:
+            out.append(covers)
+        return out
+
     def extra(n: Node, kind: str, tainted: Set[str]):
         out = list(_absent_cleaner(n, kind, tainted))
+        out.extend(scan_cleaner(n, kind))
         if n.kind == "for" and kind == "false" and id(n.ast) in by_id:
             l = by_id[id(n.ast)]
             pre = "~" if getattr(l, "weak", False) else ""
